@@ -191,7 +191,10 @@ def _flag_shard(arg):
                      % (incname.replace("'", ''), '-DOPT=' + opt, opt, '-Wl,--x=' + opt.replace(',', ''), auto))
         # things auto_fill could pick up: installed headers and libraries; two packages that say
         # explicitly that they have NO libraries / NO include directories
-        lines.append("install(lib, inc2)")
+        # (for the static chain the inner library is installed explicitly AFTER the one that pulled it
+        # in implicitly: a package that leaves libs to auto_fill must still list both)
+        lines.append("install(lib, inner, inc2)" if libkind == 'static-chain' else "install(lib, inc2)")
+        lines.append("pkg_config('autopkg', version='1.0', auto_fill=True)")
         lines.append("pkg_config('hdronly', version='1.0', includes=[inc2], libs=[], auto_fill=True)")
         lines.append("pkg_config('binonly', version='1.0', includes=[], libs=[lib], auto_fill=True)")
         files['build.bfg'] = '\n'.join(lines) + '\n'
@@ -240,6 +243,12 @@ def _flag_shard(arg):
             if rc != 0 or [l.split()[0] for l in out.splitlines() if l.strip()] != ['otherpkg']:
                 problems.append('%s --print-requires: %r' % (tag, out))
         pcdir = os.path.join(pr.bld, 'pkgconfig')
+        rc, out, err = pkgconf(['--libs', 'autopkg-uninstalled'], [pcdir])
+        wantl = ['-linner', '-lmylib'] if libkind == 'static-chain' else ['-lmylib']
+        gotl = sorted(w for w in sh_split(out) if w.startswith('-l'))
+        if rc != 0 or gotl != wantl:
+            problems.append('autopkg-uninstalled --libs (libs left to auto_fill): %r, the explicitly installed '
+                            'libraries are %r %s' % (gotl, wantl, err[-100:]))
         for pcn, flag, bad in (('hdronly-uninstalled', '--libs', '-l'), ('binonly-uninstalled', '--cflags', '-I')):
             rc, out, err = pkgconf([flag, pcn], [pcdir])
             got = sh_split(out)
